@@ -273,7 +273,7 @@ P("C13", lambda t: g_api() + [I("k5_features"), I("k5_default"), I("p2_layout"),
 P("C14", lambda t: g_p3(t) + g_p4(t) + g_t1_safety() + g_t1(t) + g_p5() + g_p6() + [I("p7_load"), I("k8_crypt")])
 P("C15", lambda t: [I("k9_create"), I("p7_load"), I("h_free"), I("h_inject")] + g_p5())
 P("C16", lambda t: [I("k8_crypt"), I("k9_create"), I("p2_layout"), I("p7_load"), I("h_free"), I("p6_wipe")] + g_p5())
-P("C17", lambda t: g_c17(["ko", "jp", "fr"] if t == "quick" else LANGS) + g_p3(t) + [I("p2_layout")])
+P("C17", lambda t: g_c17(["ko", "jp", "fr"] if t == "quick" else LANGS) + g_p3(t) + [I("p2_layout")] + g_p5())
 P("C18", lambda t: [I("k9_create"), I("h_inject"), I("k7_keygen"), I("k8_crypt"), I("p7_load"), I("h_free")] + g_p5())
 P("C19", lambda t: g_t1(t, cfgs=("s", "u")) + g_t3_lemma(t, cfgs=("s", "u")) + g_t4(cfgs=("s", "u")) + g_p3(t, cfgs=("s", "u"))
   + g_p6(cfgs=("s", "u")) + (g_p4(t, cfgs=("s", "u")) if t == "thorough" else [I("p4_split", cfg=c, defs=["P4_LEN=12"], flags=UW(19), cap=300, rss=1.0) for c in ("s", "u")]))
